@@ -32,17 +32,17 @@ def extra_obligations(index, tier):
     def src(key):
         return ast.unparse(index.func(key).node)
     s = src("codebasin.report:summary")
-    out.append(("summary names each row with sorted(pset)", "', '.join(sorted(pset))" in s, "", "codebasin.report:summary"))
+    out.append(("summary names each row with sorted(pset)", "', '.join(sorted(pset))" in s, "", "codebasin.report:summary", "pattern"))
     out.append(("summary orders rows by a total key of the set size only (ties follow dict insertion order: a view, not claimed)",
-                "sorted(setmap.keys(), key=len)" in s, "", "codebasin.report:summary"))
+                "sorted(setmap.keys(), key=len)" in s, "", "codebasin.report:summary", "pattern"))
     s = src("codebasin.report:clustering")
     out.append(("clustering fixes the platform order with sorted()", "platforms = sorted(extract_platforms(setmap))" in s, "",
-                "codebasin.report:clustering"))
+                "codebasin.report:clustering", "pattern"))
     s = src("codebasin.report:FileTree.Node._platforms_str")
     out.append(("tree labels iterate sorted(all_platforms)", "enumerate(sorted(all_platforms))" in s, "",
-                "codebasin.report:FileTree.Node._platforms_str"))
+                "codebasin.report:FileTree.Node._platforms_str", "pattern"))
     s = src("codebasin.report:files")
-    out.append(("tree legend iterates sorted platforms", "enumerate(sorted(tree.root.platforms))" in s, "", "codebasin.report:files"))
+    out.append(("tree legend iterates sorted platforms", "enumerate(sorted(tree.root.platforms))" in s, "", "codebasin.report:files", "pattern"))
     # no code path picks "the first element of a set"
     import re
     bad = []
